@@ -20,7 +20,9 @@ CACHE = os.path.join(VERIF, ".cache")
 COQ = os.path.join(VERIF, "coq")
 HARNESS = os.path.join(VERIF, "harness")
 TARGET = os.path.join(CACHE, "target")
-EVIDENCE = os.path.join(VERIF, "evidence")
+# the evidence files under /verif/evidence describe runs against /repo itself; a run against another tree (VERIF_REPO:
+# seeded or refactored scratch copies during development) writes its evidence under .cache instead
+EVIDENCE = os.path.join(VERIF, "evidence") if os.path.realpath(REPO) == "/repo" else os.path.join(VERIF, ".cache", "evidence_other_tree")
 REPLAYS = os.path.join(VERIF, "replays")
 NPROC = os.cpu_count() or 4
 
